@@ -73,15 +73,35 @@ theorem error_propagates (f : Nat) (env : Env) (op : BinOp) (l r : E) (t : Ty)
 /-- well-typed conditional: the chosen branch, converted to the common type of both -/
 theorem cond_true (f : Nat) (env : Env) (c t e : E) (tv ev : V) (ut : Ty)
     (hc : eval f env c = .ok (.bool true)) (ht : eval f env t = .ok tv) (he : eval f env e = .ok ev)
-    (hu : unifyTy tv.ty ev.ty = some ut) (hno : ut ≠ .other) :
+    (hu : condType (.ok tv) (.ok ev) = some ut) (hno : ut ≠ .other) :
     eval (f + 1) env (.cond c t e) = .ok (convTo ut tv) := by
-  simp only [eval, ht, he, Res.ty, hu]
-  cases ut <;> simp_all [asBool]
+  simp only [eval, ht, he, hu, hc]
+  cases ut <;> simp_all [asBool, V.isNull]
+
+/-- two results of known types: the result type is their unification -/
+theorem condType_typed (tv ev : V) (ht : tv.ty ≠ .dyn) (he : ev.ty ≠ .dyn) :
+    condType (.ok tv) (.ok ev) = unifyTy tv.ty ev.ty := by
+  have h1 : (Res.ok tv).isDynNull = false := by cases tv <;> simp_all [Res.isDynNull, V.ty]
+  have h2 : (Res.ok ev).isDynNull = false := by cases ev <;> simp_all [Res.isDynNull, V.ty]
+  simp [condType, h1, h2, Res.ty, ht, he]
+
+/-- a literal null takes the type of the other result -/
+theorem condType_null_left (r : Res) : condType (.ok .null) r = some r.ty := by simp [condType, Res.isDynNull]
+theorem cond_null_chosen_is_typed (f : Nat) (env : Env) (c t e : E) (n : Int)
+    (hc : eval f env c = .ok (.bool true)) (ht : eval f env t = .ok .null) (he : eval f env e = .ok (.num n)) :
+    eval (f + 1) env (.cond c t e) = .ok (.tnull .num) := by
+  simp [eval, ht, he, hc, condType, Res.isDynNull, Res.ty, V.ty, asBool, V.isNull, convTo]
+
+/-- when one result's type is unknown nothing is converted: the chosen result as it is -/
+theorem cond_unknown_type_passes_through (f : Nat) (env : Env) (c t e : E) (n : Int) (b : Bool)
+    (hc : eval f env c = .ok (.bool b)) (ht : eval f env t = .ok (.num n)) (he : eval f env e = .err .dyn) :
+    eval (f + 1) env (.cond c t e) = if b then .ok (.num n) else .err .dyn := by
+  cases b <;> simp [eval, ht, he, hc, condType, Res.isDynNull, Res.ty, V.ty, asBool, V.isNull, convTo]
 
 theorem cond_inconsistent_types (f : Nat) (env : Env) (c t e : E) (n : Int) (b : Bool)
     (ht : eval f env t = .ok (.num n)) (he : eval f env e = .ok (.bool b)) :
     eval (f + 1) env (.cond c t e) = .err .dyn := by
-  simp [eval, ht, he, Res.ty, V.ty, unifyTy]
+  simp [eval, ht, he, condType, Res.isDynNull, Res.ty, V.ty, unifyTy]
 
 theorem number_and_string_unify_to_string (n : Int) : unifyTy .num .str = some .str ∧ convTo .str (.num n) = .str (toString n) :=
   ⟨rfl, rfl⟩
@@ -158,6 +178,76 @@ example : same (eval 7 [("b", .bool true)] (.tmplS [.cond (.var "b") (.tmplS [.v
 example : same (eval 7 [("t", .tuple [.null])] (.join (.forE none "v" (.var "t") none (.var "v") none false))) (.err .str) = true := by decide
 
 /-! ## precedence, associativity, parentheses (the parser of binary operators) -/
+
+/-! ### function calls -/
+namespace Call
+
+/-- a name that is not a function is an error, whatever the arguments -/
+theorem unknown_function_is_error (f : Nat) (env : Env) (name : String) (args : List E) (ex : Bool)
+    (h : funSig name = none) : eval (f + 1) env (.call name args ex) = .err .dyn := by
+  simp [eval, h]
+
+/-- too few arguments, or too many for a function without a variadic parameter: an error before any
+    (non-expanding) argument is looked at -/
+theorem wrong_arity_is_error (f : Nat) (env : Env) (name : String) (args : List E) (sig : FunSig)
+    (h : funSig name = some sig) (ha : arityOk sig args.length = false) :
+    eval (f + 1) env (.call name args false) = .err .dyn := by
+  simp [eval, h, ha]
+
+/-- the expanding argument must be a sequence: a scalar, an object or null is an error -/
+theorem expand_of_non_sequence_is_error (f : Nat) (env : Env) (name : String) (init : List E) (x : E) (sig : FunSig)
+    (v : V) (h : funSig name = some sig) (hx : eval f env x = .ok v)
+    (hv : ∀ vs, v ≠ .tuple vs ∧ v ≠ .listv vs) :
+    eval (f + 1) env (.call name (init ++ [x]) true) = .err .dyn := by
+  cases v with
+  | tuple vs => exact absurd rfl (hv vs).1
+  | listv vs => exact absurd rfl (hv vs).2
+  | _ => simp [eval, h, hx]
+
+theorem expand_error_propagates (f : Nat) (env : Env) (name : String) (init : List E) (x : E) (sig : FunSig) (t : Ty)
+    (h : funSig name = some sig) (hx : eval f env x = .err t) :
+    eval (f + 1) env (.call name (init ++ [x]) true) = .err .dyn := by
+  simp [eval, h, hx]
+
+/-- a null argument for a typed parameter is refused; conversion failures are errors -/
+theorem null_for_typed_parameter (pt : PTy) (h : pt ≠ .any) : convArg pt .null = .err .dyn := by
+  cases pt <;> first | rfl | exact absurd rfl h
+theorem bool_for_number_parameter (b : Bool) : convArg .num (.bool b) = .err .dyn := rfl
+theorem tuple_for_string_parameter (vs : List V) : convArg .str (.tuple vs) = .err .dyn := rfl
+theorem number_for_string_parameter (n : Int) : convArg .str (.num n) = .ok (.str (intToStr n)) := rfl
+theorem any_parameter_takes_everything (v : V) : convArg .any v = .ok v := by cases v <;> rfl
+
+/-- one bad argument makes the whole call an error, wherever it stands -/
+theorem bad_argument_is_error (sig : FunSig) (i : Nat) (pre post : List V) (v : V)
+    (hv : convArg ((sig.params[i + pre.length]?).getD (sig.varParam.getD .any)) v = .err .dyn) :
+    (convArgs sig i (pre ++ v :: post)).1 = .err .dyn := by
+  induction pre generalizing i with
+  | nil =>
+    simp only [List.nil_append, List.length_nil, Nat.add_zero] at hv ⊢
+    simp only [convArgs, hv]
+  | cons p pre ih =>
+    have := ih (i + 1) (by simpa [Nat.add_assoc, Nat.add_comm 1] using hv)
+    simp only [List.cons_append, convArgs]
+    generalize hc : convArgs sig (i + 1) (pre ++ v :: post) = c at this
+    obtain ⟨st, rest⟩ := c
+    simp only at this
+    subst this
+    cases convArg ((sig.params[i]?).getD (sig.varParam.getD .any)) p <;> rfl
+
+example : same (eval 6 [] (.call "add2" [.num 2, .str "40"] false)) (.ok (.num 42)) = true := by decide
+example : same (eval 6 [("nums", .tuple [.num 2, .num 3])] (.call "add2" [.var "nums"] true)) (.ok (.num 5)) = true := by decide
+example : same (eval 6 [("nums", .tuple [.num 2, .num 3])] (.call "add2" [.num 1, .var "nums"] true)) (.err .dyn) = true := by decide
+example : same (eval 6 [] (.call "cat" [] false)) (.ok (.str "")) = true := by decide
+example : same (eval 6 [] (.call "cat" [.str "a", .num 1, .bool true] false)) (.ok (.str "a1true")) = true := by decide
+example : same (eval 6 [] (.call "cat" [.null] false)) (.err .dyn) = true := by decide
+example : same (eval 6 [] (.call "pick" [.num 1, .str "a", .null] false)) (.ok .null) = true := by decide
+example : same (eval 6 [] (.call "pick" [.num 2, .str "a", .null] false)) (.err .dyn) = true := by decide
+example : same (eval 6 [] (.call "neg1" [.str "1"] false)) (.ok (.bool false)) = true := by decide
+example : same (eval 6 [] (.call "neg1" [.str "TRUE"] false)) (.err .dyn) = true := by decide
+example : same (eval 6 [] (.call "neg1" [.tuple []] true)) (.err .dyn) = true := by decide
+example : arityOk ⟨[.num, .num], none⟩ 1 = false ∧ arityOk ⟨[.num, .num], none⟩ 3 = false ∧ arityOk ⟨[], some .str⟩ 0 = true := by decide
+
+end Call
 
 /-! ### flush heredocs: the common indentation is cut, a line that starts with an interpolation pins it to 0 -/
 namespace Flush
